@@ -1,7 +1,7 @@
 (** C11 — well-formed AML is parsed into a namespace that matches the program.
     Statements only; every proof is [exact <lemma>] (Aml/LexRoundtrip.v). *)
 From Coq Require Import NArith List.
-From FF Require Import Lib.Word Gen.Consts_device_acpi_aml Aml.Stream Aml.Lex Aml.LexProofs Aml.Grammar Aml.LexRoundtrip.
+From FF Require Import Lib.Word Gen.Consts_device_acpi_aml Aml.Stream Aml.Lex Aml.LexProofs Aml.Grammar Aml.LexRoundtrip Aml.WfProgram Aml.C11Witness.
 Import ListNotations.
 Local Open Scope N_scope.
 
@@ -45,3 +45,25 @@ Theorem C11_lex_roundtrip_opcode : forall op r pre post,
   nextOpcode r = Ok (op, true, set_offset_raw r (lenN pre + lenN (enc_op op))).
 Proof. exact opcode_roundtrip. Qed.
 Print Assumptions C11_lex_roundtrip_opcode.
+
+(** ---- the whole parser ---- *)
+
+(** [parse_encode], the FULL statement of C11 over the model: for every well-formed sequence of tables
+    ([wf_program]: admissible PkgLength widths, proper names, resolvable Scope directives and calls, declared argument
+    counts, opcodes of the table with their arity), ParseAML of the encoded tables succeeds and the namespace view of
+    the resulting tree (Aml/View.v: the children of a Device / Method / ... are those of its nested ScopeBlock) equals
+    [ns p] (Aml/Grammar.v): every named object at its absolute path with kind and arguments in order, constants /
+    strings / buffers / field units with their values, every call with callee and attached arguments. *)
+Definition C11_full_parse_encode : Prop :=
+  forall tables, wf_program tables = true -> parse_encode_statement tables.
+
+(** [parse_encode] is FALSE for the current parser: one well-formed program per known finding
+    (known_findings/C11.json) on which the faithful model either rejects the table or builds another namespace;
+    the same programs are in corpus/C11 and fail the monitor on the real parser. *)
+Theorem C11_parse_encode_refuted :
+  Forall (fun p => wf_program p = true /\ ~ parse_encode_statement p)
+    [w_path_through_device; w_caret_in_device; w_noncanonical_multiname; w_if_without_body;
+     w_named_object_operator_arg; w_path_inside_named_object_arg; w_deferred_block_truncated;
+     w_empty_buffer_in_deferred_block].
+Proof. exact witnesses_all. Qed.
+Print Assumptions C11_parse_encode_refuted.
